@@ -19,15 +19,3 @@ def _beat_cemgil_more_ref(inp, what=""):
 def _beat_cemgil_best(inp, what=""):
     """complement of the hypothesis of C01.Beat.cemgil_best_le_one_partial: 2|ref| - 1 <= |est|"""
     return 2 * len(inp["ref"]) - 1 > len(inp["est"])
-
-
-@region("beat.p_score.single_reference_sample")
-def _beat_pscore_single_sample(inp, what=""):
-    """>= 2 reference and >= 2 estimated beats, and all reference beats fall on ONE 10 ms sample of the impulse
-    train (np.median of an empty interval array is nan; int(nan) raises)"""
-    import math
-    ref, est = inp["ref"], inp["est"]
-    if len(ref) < 2 or len(est) < 2:
-        return False
-    off = min(min(ref), min(est))
-    return len({math.ceil((r - off) * 100) for r in ref}) == 1
